@@ -6,9 +6,9 @@ pub use vcore::fuzz::fuzz_main;
 use vcore::simio::{Script, Step};
 use vcore::{FuzzTarget, FuzzVerdict};
 
-pub const FUZZ_JOBS: u32 = 8;
+pub const FUZZ_JOBS: u32 = 16;
 /// measured (ASan build, one core): ~370 exec/s (every input is decoded twice, once one byte per read)
-pub const GOSSIPSUB_RPC_RUNS_PER_JOB: u64 = 60_000;
+pub const GOSSIPSUB_RPC_RUNS_PER_JOB: u64 = 240_000;
 
 pub const GOSSIPSUB_RPC: FuzzTarget = FuzzTarget {
     name: "gossipsub_rpc",
